@@ -20,7 +20,7 @@ FUNCTIONS = [
     "SystemBounds.__contains__", "Bounds.__contains__", "AggregatedBatteryData.__init__",
     "BatteryDistributionAlgorithm._inclusion_exclusion_bounds", "_compute_battery_availability_ratio (min_power)",
 ]
-SHIMS = ["math.isclose dispatch on proxies", "PowerBoundsCalculator / BatteryManager built with __new__ + the attributes the encoded methods read "
+SHIMS = ["math.isclose dispatch on proxies", "PowerBoundsCalculator built by its real constructor (component-graph lookup replaced by the harness topology), BatteryManager built with __new__ + the attributes the encoded methods read "
          "(no component graph / API client needed)"]
 ASSUMPTIONS = [
     "exact reals", "per component incl_lower <= excl_lower <= 0 <= excl_upper <= incl_upper", "complete data for every component (the property says 'same complete data')",
@@ -36,7 +36,10 @@ BM = [M.POWER_INCLUSION_LOWER_BOUND, M.POWER_EXCLUSION_LOWER_BOUND, M.POWER_EXCL
 IM = [M.ACTIVE_POWER_INCLUSION_LOWER_BOUND, M.ACTIVE_POWER_EXCLUSION_LOWER_BOUND, M.ACTIVE_POWER_EXCLUSION_UPPER_BOUND, M.ACTIVE_POWER_INCLUSION_UPPER_BOUND]
 
 
-def make(shape, adjust, clause="admit", reach=False):
+def make(shape, adjust, clause="admit", reach=False, history=False):
+    """history: the same calculator instance has computed bounds before, for OTHER symbolic data of the same components carrying the
+    same timestamps (components stamp their own messages; equal or older stamps across components are normal)."""
+    import frequenz.sdk.timeseries.battery_pool._metric_calculator as mc
     shape = tuple(tuple(s) for s in shape)
 
     def fn(ex):
@@ -50,11 +53,22 @@ def make(shape, adjust, clause="admit", reach=False):
                 v = [ex.real(f"c{c}_{k}") for k in ("il", "el", "eu", "iu")]
                 ex.assume(z3.And(E(v[0]) <= E(v[1]), E(v[1]) <= 0, 0 <= E(v[2]), E(v[2]) <= E(v[3])))
                 (bd if c in bats else idt)[c] = v
-        calc = PowerBoundsCalculator.__new__(PowerBoundsCalculator)
-        calc._batteries = set(bd)
-        calc._bat_inv_map = {b: frozenset(invs) for bats, invs in groups for b in bats}
-        calc._bat_bats_map = {b: frozenset(bats) for bats, invs in groups for b in bats}
-        calc._battery_metrics, calc._inverter_metrics = BM, IM
+        # the real constructor, with the component-graph lookup replaced by the harness topology
+        real_map = mc._get_battery_inverter_mappings
+        mc._get_battery_inverter_mappings = lambda batteries, **kw: {
+            "bat_invs": {b: frozenset(invs) for bats, invs in groups for b in bats},
+            "bat_bats": {b: frozenset(bats) for bats, invs in groups for b in bats}}
+        try:
+            calc = PowerBoundsCalculator(frozenset(bd))
+        finally:
+            mc._get_battery_inverter_mappings = real_map
+        if history:
+            md0 = {}
+            for c in list(bd) + list(idt):
+                v0 = [ex.real(f"old{c}_{k}") for k in ("il", "el", "eu", "iu")]
+                ex.assume(z3.And(E(v0[0]) <= E(v0[1]), E(v0[1]) <= 0, 0 <= E(v0[2]), E(v0[2]) <= E(v0[3])))
+                md0[c] = ComponentMetricsData(c, TS, dict(zip(BM if c in bd else IM, v0)))
+            calc.calculate(md0, set(bd))
         md = {}
         for b, v in bd.items():
             md[b] = ComponentMetricsData(b, TS, dict(zip(BM, v)))
@@ -112,6 +126,10 @@ def instances(tier):
         if n != "mixed" or tier != "quick":
             out.append(I(f"{n}-minpower", "make", (sh, True, "minpower"), f"topology {n}: admissible power >= sum of group minimum powers",
                          budget_s=300 if n != "mixed" else 900, exhaustive=(n != "mixed"), **kw))
+    for n in ("1x1", "2x(1x1)"):
+        out.append(I(f"{n}-admit-history", "make", (shapes[n], True, "admit", False, True),
+                     f"topology {n}: the calculator instance computed bounds for other data with the same timestamps before" + ("" if n == "1x1" else " (budgeted)"),
+                     budget_s=300 if n == "1x1" else 100, exhaustive=(n == "1x1"), **kw))
     if tier != "quick":
         for n, sh in {"3x(1x1)": ((1, 1),) * 3, "2x2": ((2, 2),), "2x(2x1)": ((2, 1), (2, 1))}.items():
             for adj in (True, False):
